@@ -60,7 +60,9 @@ class CDSearch(
         all_costs = set(
             self.G.probabilities[S][P] for S in self.G.rules for P in self.G.rules[S]
         )
-        self.basic_M = max(abs(x - y) for x in all_costs for y in all_costs)
+        # at least 1: when every rule has the same cost the spread is 0 and the
+        # bucket queues would divide by zero
+        self.basic_M = max(1, max(abs(x - y) for x in all_costs for y in all_costs))
         self.M = (
             self.basic_M
             * (
